@@ -242,6 +242,77 @@ func init() {
 			}
 		}
 	}
+	// ordered streams (C12): one publisher, one or two topics, a subscriber with a small Receive Maximum
+	// that acknowledges in order, drops and resumes its session
+	suites["brokerorder"] = suite{gen: func(r *rand.Rand, n int, emit func(string)) {
+		for done := 0; done < n; {
+			emit("reset")
+			caps := ""
+			if r.Intn(4) == 0 {
+				caps = fmt.Sprintf(" recvmax=%d", 2+r.Intn(3))
+			}
+			emit("bk.new" + caps)
+			topics := []string{"a/b", "x"}
+			subVer := pick(r, []int{4, 5, 5, 5})
+			subConn, next := 1, 3
+			kv := ""
+			if subVer == 5 {
+				kv = " sei=1000"
+				if r.Intn(5) > 0 {
+					kv += fmt.Sprintf(" rm=%d", 1+r.Intn(3))
+				}
+			}
+			emit(fmt.Sprintf("bk.conn 1 %d 0 %s%s", subVer, hs("sub"), kv))
+			q := 1 + r.Intn(2)
+			emit(fmt.Sprintf("bk.send 1 SUBSCRIBE id=100 f=%s:%d,%s:%d", hs("a/#"), q, hs("x"), q))
+			emit(fmt.Sprintf("bk.conn 2 %d 1 %s", pick(r, []int{4, 5}), hs("pub")))
+			ackNext := 1 // the broker hands out packet ids 1, 2, 3 … to the subscriber
+			subOpen := true
+			l := 12 + r.Intn(30)
+			for i := 0; i < l; i++ {
+				done++
+				switch k := r.Intn(20); {
+				case k < 10:
+					emit(fmt.Sprintf("bk.send 2 PUBLISH q=%d id=%d t=%s p=%s", q, 1+i%5, hs(pick(r, topics)), hs(fmt.Sprintf("o%d", done))))
+					if q == 2 {
+						emit(fmt.Sprintf("bk.send 2 PUBREL id=%d", 1+i%5))
+					}
+				case k < 16:
+					if subOpen {
+						if q == 1 {
+							emit(fmt.Sprintf("bk.send %d PUBACK id=%d", subConn, ackNext))
+						} else {
+							emit(fmt.Sprintf("bk.send %d PUBREC id=%d", subConn, ackNext))
+							emit(fmt.Sprintf("bk.send %d PUBCOMP id=%d", subConn, ackNext))
+						}
+						ackNext++
+					}
+				case k < 18:
+					if subOpen {
+						emit(fmt.Sprintf("bk.drop %d", subConn))
+						subOpen = false
+					} else {
+						subConn = next
+						next++
+						emit(fmt.Sprintf("bk.conn %d %d 0 %s%s", subConn, subVer, hs("sub"), kv))
+						subOpen = true
+					}
+				case k < 19:
+					if subOpen && r.Intn(2) == 0 { // takeover while connected
+						subConn = next
+						next++
+						emit(fmt.Sprintf("bk.conn %d %d 0 %s%s", subConn, subVer, hs("sub"), kv))
+					}
+				default:
+					emit("bk.dump")
+				}
+			}
+			if !subOpen {
+				emit(fmt.Sprintf("bk.conn %d %d 0 %s%s", next, subVer, hs("sub"), kv))
+			}
+			emit("bk.dump")
+		}
+	}}
 	suites["broker"] = suite{gen: genBroker(false)}
 	// the same histories with connection losses whose handler is held before its session clean-up
 	// while other ops (typically a reconnect of the same client id) run: schedules of the old
